@@ -5,7 +5,7 @@ import ast
 from typing import Any
 
 from ..astutil import dotted, is_const, kw, norm, unwrap_cast, walk_body
-from ..finite import Evaluator, NeedAtom, discover_atoms, truth_table
+from ..finite import k_eq, k_is, k_none, Evaluator, NeedAtom, discover_atoms, truth_table
 from ..report import Checker
 from ..srcmodel import Func, Unsupported
 from ..worklist import Model, Put, build_model, derived_order, loop_body_table, taking_order
@@ -107,7 +107,7 @@ def check_ctrldep(ck: Checker, f: Func, m: Model, *, legacy: bool = False, rule:
     mtxt = ",".join(f"{k}={v}" for k, v in m.mode.items()) or "-"
     keys = set(rows[0]) - {"emitted", "descended", "evaluated", "emit_args", "left_loop", "stmts"} if rows else set()
     fcall, pcall = f"filter({tv})", f"prune({tv})"
-    known = {"is(None,filter)", "filter", fcall, "prune", "is(None,prune)", pcall}
+    known = {k_none("filter"), "filter", fcall, "prune", k_none("prune"), pcall}
     if legacy:
         known |= {"skip_self"}
     unknown = keys - known
@@ -115,8 +115,8 @@ def check_ctrldep(ck: Checker, f: Func, m: Model, *, legacy: bool = False, rule:
         raise Unsupported(f"traversal loop body depends on {sorted(unknown)}", m.loop)
     bad = []
     for r in rows:
-        f_absent = r.get("is(None,filter)", False) if "is(None,filter)" in r else (not r["filter"] if "filter" in r else True)
-        p_present = (not r["is(None,prune)"]) if "is(None,prune)" in r else r.get("prune", False)
+        f_absent = r.get(k_none("filter"), False) if k_none("filter") in r else (not r["filter"] if "filter" in r else True)
+        p_present = (not r[k_none("prune")]) if k_none("prune") in r else r.get("prune", False)
         skipping = legacy and r.get("skip_self", False)
         exp_emit = (not skipping) and (f_absent or r.get(fcall, False))
         exp_desc = skipping or not (p_present and r.get(pcall, False))
@@ -189,7 +189,7 @@ def check_gather(ck: Checker, f: Func, *, legacy: bool = False, rule: str = "R-G
             continue
         cv = tkey.split(",", 1)[1].rstrip(")").strip()
         clsvar = clsvar or cv
-        xf_none, xf_call = "is(None,extra_filter)", f"extra_filter({p})"
+        xf_none, xf_call = k_none("extra_filter"), f"extra_filter({p})"
         other = set(atoms) - {tkey, xf_none, xf_call}
         if other:
             ck.violation(rule, f, d, what, construct=f"gather(exact_type={exact}): filter depends on {sorted(other)}")
